@@ -13,6 +13,7 @@ func init() {
 	register(&Property{
 		ID: "C20",
 		Explain: "Static structural necessary conditions of 'storage stays bounded under churn': " +
+			"(insert-into-writable-head) Put and PutRaw insert into the last table only after makeTable ran or after its state was found to be ReadWriteState: a recycled table left last by a transfer is not registered for scans and is skipped by Export; " +
 			"(supersede-becomes-garbage) every superseding write retires the old version — Table.Put/PutRaw call Table.Delete of the same key before overwriting the index entry, KVStore.Put/PutRaw retire the key from every older table after the insert, and Table.Delete moves the same n bytes from inuse to garbage (shared with C11); " +
 			"(compaction-shape) Compaction evicts only non-writable tables whose garbage is at least the threshold share of the bytes written to them, not of their capacity (comparison truth table {skip, evict, evict}), reports 'not done' after each evicted table, a drained table is unregistered and Reset, and makeTable reuses a recycled table before allocating a new one; " +
 			"(both-kinds-compacted) the periodic worker compacts the primary and the backup partition of every partition id below PartitionCount; " +
@@ -30,6 +31,7 @@ func init() {
 			kvSizeBoundaryAgreement(r)
 			semaphoreReleased(r, "semaphore-released")
 			kvPutGrowsStore(r)
+			kvInsertIntoWritableHead(r)
 		},
 	})
 }
